@@ -158,6 +158,9 @@ type solutionContainer struct {
 	Solution   Solution
 	Error      error
 	Iterations int
+	// processed is closed by the collecting goroutine once it has dealt with
+	// the container (nil for containers that are not sent by a worker).
+	processed chan struct{}
 }
 
 func (s *parallelSolverImpl) SetSolverFactory(
@@ -400,11 +403,16 @@ func (s *parallelSolverImpl) Solve(
 							}
 
 							verifYield("worker_send")
+							// wait until the collector has processed the solution: the next
+							// run must start from a best solution that reflects this one
+							processed := make(chan struct{})
 							syncResultChannel <- solutionContainer{
 								Solution:   sol,
 								Error:      sol.Error,
 								Iterations: int(totalIterations.Load()),
+								processed:  processed,
 							}
+							<-processed
 						}
 					}(runCount)
 				}
@@ -436,11 +444,13 @@ func (s *parallelSolverImpl) Solve(
 					Iterations: solverResult.Iterations,
 				})
 				cancel()
+				close(solverResult.processed)
 				continue
 			}
 
 			verifNote("agg_score", solverResult.Solution.Score())
 			if solverResult.Solution.Score() >= bestSolution.Score() {
+				close(solverResult.processed)
 				continue
 			}
 
@@ -455,6 +465,7 @@ func (s *parallelSolverImpl) Solve(
 				Error:      solverResult.Error,
 				Iterations: solverResult.Iterations,
 			})
+			close(solverResult.processed)
 		}
 	}()
 
